@@ -220,6 +220,9 @@ func loopBackEdges(fn *ssa.Function) map[core.Edge]bool {
 			continue
 		}
 		for _, p := range b.Preds {
+			if !b.Dominates(p) {
+				continue // the edge entering the loop, not a back edge
+			}
 			for i, s := range p.Succs {
 				if s == b {
 					out[core.Edge{From: p, Idx: i}] = true
